@@ -119,6 +119,15 @@ Theorem C17_gate_actor : forall dg cfg l st,
          (run_actor dg cfg st l).
 Proof. exact run_actor_gate. Qed.
 
+(* the gate with the session's local events (spawn / exit of local actors reported by the pid
+   registry monitor) interleaved arbitrarily with the peer's messages *)
+Theorem C17_gate_inputs : forall dg cfg l st,
+  Forall (fun x : sstate * input * list effect =>
+            let '(pre, _, eff) := x in
+            existsb protected eff = true -> a_is_ok (s_auth pre) = true)
+         (run_in_log dg cfg st l).
+Proof. exact run_in_gate. Qed.
+
 (* one message, contrapositive form *)
 Theorem C17_gate_step : forall dg cfg st m e,
   a_is_ok (s_auth st) = false -> existsb protected (snd (handle dg cfg st m e)) = false.
@@ -286,3 +295,4 @@ Print Assumptions C17_closed_oracle_sound.
 Print Assumptions C17_getsessions_auth_only.
 Print Assumptions C17_replay_closes_client.
 Print Assumptions C17_dg_sym_injective.
+Print Assumptions C17_gate_inputs.
